@@ -75,7 +75,13 @@ pub fn op_blueprint(job: &J) -> Result<J, String> {
 }
 
 pub fn op_apply(job: &J) -> Result<J, String> {
-    let mut bp: Blueprint = serde_json::from_value(job["blueprint"].clone()).map_err(|e| format!("blueprint: {e}"))?;
+    let loaded = guarded(|| serde_json::from_value::<Blueprint>(job["blueprint"].clone()));
+    let mut bp: Blueprint = match loaded {
+        Err(p) => return Ok(json!({"steps": [{"panic": p}]})),
+        // a blueprint the loader refuses: a proper rejection (C20), reported as such
+        Ok(Err(e)) => return Ok(json!({"steps": [{"err": "BlueprintRejectedByLoader", "detail": e.to_string(), "unchanged": true}]})),
+        Ok(Ok(bp)) => bp,
+    };
     let save_load = job["save_load"].as_bool().unwrap_or(true);
     let mut steps_out = vec![];
     for step in job["steps"].as_array().cloned().unwrap_or_default() {
